@@ -84,7 +84,7 @@ def run(ctx, rep):
     for version in (2, 3):
         for drop in (1, 2):
             for n in ([0, 7, 16, 40] if not ctx.deep else [0, 1, 7, 15, 16, 17, 40, 100, 255]):
-                frame, did = rbytes(rng, n), rng.choice([1, 123456, 2 ** 48 - 1])
+                frame, did = rbytes(rng, n), rng.choice([1, 123456, 2 ** 48 - 1, 0x00005A5A0001, 0x5A5A5A5A5A5A])     # ids that put 5A 5A inside the packet
                 dev = refpeer.RefDevice(ctx.model, rng, version=version, device_id=did)
                 reply = A.mk_frame(A.state_body(rng, n=24))
                 dev.on_frame = lambda f, reply=reply: [reply]
